@@ -15,6 +15,7 @@ import Driver.Filter
 import Driver.Bisync
 import Driver.Watch
 import Driver.Caches
+import Driver.Steps
 
 namespace Driver
 
@@ -34,6 +35,7 @@ def dispatch (toks : List String) : String :=
       else if area == "bisync" then Driver.Bisync.handle toks
       else if area == "watch" then Driver.Watch.handle toks
       else if area == "caches" then Driver.Caches.handle toks
+      else if area == "steps" then Driver.Steps.handle toks
       else none
     r.getD "bad-op"
 
